@@ -75,9 +75,11 @@ class QfixedImp(float, Qtype):
         return cls(integer_value + fractional_value)
 
     def to_bool(self) -> List[bool]:
-        integer_part = bin_to_bool_list(
-            bin(int(self.value))[::-1], self.BIT_SIZE_INTEGER
-        )
+        # Integer part, least significant bit first, truncated / padded to its size
+        integer_bits = bin_to_bool_list(bin(int(self.value)))[::-1]
+        integer_part = (integer_bits + [False] * self.BIT_SIZE_INTEGER)[
+            : self.BIT_SIZE_INTEGER
+        ]
 
         fractional_part = []
         c_val = self.value
